@@ -66,13 +66,16 @@ def main():
     n_esc = runner.escalate(results, esc_s, args.jobs, log)
     log(f"  escalated {n_esc} obligations to the portfolio ({esc_s}s budget)")
     # further rounds: branch sides that were only skipped on sample evidence and could not be refuted are explored
-    for rnd in range(2, (3 if tier == 'quick' else 5)):
+    for rnd in range(2, (4 if tier == 'quick' else 6)):
         roots = {}
         for n, r in results.items():
             for rec in sorted(r['records'], key=lambda x: 0 if x.get('status') == 'sat' else 1):
                 if rec.get('kind') == 'side' and rec['status'] in ('sat', 'unknown') and not rec.get('explored'):
-                    if len(roots.get(n, [])) >= (6 if tier == 'quick' else 24):
-                        continue            # bounded per round; the rest is reported as unexplored
+                    n_unknown = sum(1 for x in roots.get(n, []) if x.get('env') is None)
+                    if rec['status'] != 'sat' and n_unknown >= (6 if tier == 'quick' else 24):
+                        continue            # sides the solvers could neither refute nor witness: bounded per round
+                    if len(roots.get(n, [])) >= 96:
+                        continue
                     rec['explored'] = True
                     roots.setdefault(n, []).append(dict(prefix=[tuple(x) for x in rec['prefix']], env=rec.get('env')))
         if not roots:
